@@ -160,7 +160,7 @@ func shapeOf(ops []Op, obs []Obs) string {
 			for _, s := range lastQ {
 				storedHist[s.Sid] = len(s.Samples) > 0 && s.Samples[len(s.Samples)-1].V.Kind != 0
 			}
-			for sid := 1; sid <= 8; sid++ {
+			for sid := 1; sid <= 400; sid++ {
 				k := key{o.A, sid}
 				if (newer[k] && storedHist[sid]) || newerP[k] {
 					return shapeStaleDeferred
@@ -216,7 +216,7 @@ func (e *emitter) emit(cfg Cfg, r *runner, stream, corpus string) {
 	ops, obs := r.Ops, r.Obs
 	sidsSeen := map[int]bool{}
 	var sids []string
-	for s := 1; s <= 8; s++ {
+	for s := 1; s <= 400; s++ {
 		for _, o := range ops {
 			if o.Op == OpApp && o.Sid == s && !sidsSeen[s] {
 				sidsSeen[s] = true
@@ -331,10 +331,16 @@ func genVal(r *gen.Rand, kind int) Val {
 		if r.Chance(1, 10) {
 			return Val{Kind: 1, ID: 0}
 		}
+		if r.Chance(1, 4) {
+			return Val{Kind: 1, ID: -r.Range(1, 3)}
+		}
 		return Val{Kind: 1, ID: r.Range(1, 3)}
 	}
 	if r.Chance(1, 10) {
 		return Val{Kind: 2, ID: 0}
+	}
+	if r.Chance(1, 4) {
+		return Val{Kind: 2, ID: -r.Range(1, 3)}
 	}
 	return Val{Kind: 2, ID: r.Range(1, 3)}
 }
@@ -574,6 +580,38 @@ func genTable(dir string, lastKind int, headAhead int64, oooWin int64, full bool
 	return cfg, run
 }
 
+// the six sample kinds of the kind-sequence stream
+var seqKinds = []func(id int64) Val{
+	func(id int64) Val { return Val{Kind: 0, Bits: f64bits(float64(id))} }, // float
+	func(id int64) Val { return Val{Kind: 1, ID: id} },                      // integer histogram
+	func(id int64) Val { return Val{Kind: 2, ID: id} },                      // float histogram
+	func(id int64) Val { return Val{Kind: 1, ID: -id} },                     // integer NHCB
+	func(id int64) Val { return Val{Kind: 2, ID: -id} },                     // float NHCB
+	func(id int64) Val { return Val{Kind: 0, Bits: staleBits} },             // float staleness marker
+}
+
+// kind sequences: every ordered pair (and the given triples) of sample kinds for one fresh series,
+// ascending timestamps, appended through ONE appender and committed once; each sequence uses
+// its own series, all in one DB. Every accepted sample must be stored where the rules say.
+func genKindSeq(dir string, v2 bool, oooWin int64, seqs [][]int) (Cfg, *runner) {
+	cfg := Cfg{ChunkRange: 1000, OOOWin: oooWin, OOOCap: 32}
+	run, err := newRunner(dir, cfg)
+	if err != nil {
+		panic(err)
+	}
+	t := int64(1000)
+	for i, sq := range seqs {
+		run.Do(Op{Op: OpNew, A: i, V2: v2})
+		for j, k := range sq {
+			v := seqKinds[k](int64(j + 1))
+			run.Do(Op{Op: OpApp, A: i, Sid: i + 1, T: t, V: &v})
+			t += 3
+		}
+		run.Do(Op{Op: OpCommit, A: i})
+	}
+	return cfg, run
+}
+
 func main() {
 	if os.Getenv("C02_EXPLORE") != "" {
 		explore()
@@ -581,7 +619,7 @@ func main() {
 	}
 	f := gallina.ParseFlags()
 	meta := gallina.NewMeta("C02", f.Seed, f.Tier)
-	meta.Rule = "one case = one fresh tsdb.DB and a sequence of appender operations; evaluations = number of operations; corpus + decision-table stream (prepared head, every probe (t on the grid of window/series edges +-1) x (float, histogram, float histogram) x (equal, different, stale value) x (v1, v1+DiscardOutOfOrder, v2, v2+RejectOutOfOrder) through its own rolled-back appender) + seeded random interleaved transactions (1-3 appenders, 1-12 appends each, 1-3 series) + boundary stream (timestamps next to MinInt64/MaxInt64, huge windows); non-trivial = a case with at least one rejected append, a rolled-back accepted sample, or an accepted sample that is not stored as appended (dropped, duplicate, converted); distinct by (cfg, ops)"
+	meta.Rule = "one case = one fresh tsdb.DB and a sequence of appender operations; evaluations = number of operations; corpus + decision-table stream (prepared head, every probe (t on the grid of window/series edges +-1) x (float, histogram, float histogram) x (equal, different, stale value) x (v1, v1+DiscardOutOfOrder, v2, v2+RejectOutOfOrder) through its own rolled-back appender) + kind-sequence stream (every ordered pair and triples of {float, histogram, float histogram, integer NHCB, float NHCB, float staleness marker} for one series in one transaction, v1 and v2, OOO window 0 and 500) + seeded random interleaved transactions (1-3 appenders, 1-12 appends each, 1-3 series) + boundary stream (timestamps next to MinInt64/MaxInt64, huge windows); non-trivial = a case with at least one rejected append, a rolled-back accepted sample, or an accepted sample that is not stored as appended (dropped, duplicate, converted); distinct by (cfg, ops)"
 	cf := &gallina.CaseFile{Dir: f.Out, Type: "case", PerShard: 400,
 		Preamble: "From Coq Require Import List ZArith.\nFrom Verif Require Import lib.Int64 model.Appendable corr.CorrC02.\nImport ListNotations.\nOpen Scope Z_scope.\n",
 		Footer:   gallina.StdFooter}
@@ -615,6 +653,30 @@ func main() {
 				cfg, run := genTable(tmp, lastKind, ahead, ow, full)
 				run.Close()
 				em.emit(cfg, run, "table", "")
+			}
+		}
+	}
+	// kind sequences
+	{
+		var pairs, triples [][]int
+		for a := 0; a < 6; a++ {
+			for b := 0; b < 6; b++ {
+				pairs = append(pairs, []int{a, b})
+				for c := 0; c < 6; c++ {
+					if f.Tier == "thorough" || (a*36+b*6+c)%7 == int(f.Seed%7) {
+						triples = append(triples, []int{a, b, c})
+					}
+				}
+			}
+		}
+		for _, v2 := range []bool{false, true} {
+			for _, ow := range []int64{0, 500} {
+				cfg, run := genKindSeq(tmp, v2, ow, pairs)
+				run.Close()
+				em.emit(cfg, run, "kindseq", "pairs")
+				cfg, run = genKindSeq(tmp, v2, ow, triples)
+				run.Close()
+				em.emit(cfg, run, "kindseq", "triples")
 			}
 		}
 	}
